@@ -9,8 +9,28 @@ from ..paths import enum_paths
 def run(repo, res):
     res.rule("R23.1", "complement pairing in reallocate_unphased: the two increments of a block are phi and 1 - phi of the same phi = phase[m], applied to the first and second edge of the same blocks_edges row; zeroing and nothing else writes the count column")
     res.rule("R23.2", "orientation typestate of the phase vector: every consumer that pairs phi positionally with blocks_edges[:, 0] (placement rule, rescale -> reallocate_unphased) runs before the statement that flips phi to the placed edge")
+    res.rule("R23.3", "the count table whose singleton counts are reallocated is the very table the rescaling kernel then reads (same origin for the first argument of reallocate_unphased and the likelihood argument of mutational_timescale), whichever of the two tables rescale_segsites selects")
     r231(repo, res)
     r232(repo, res)
+    r233(repo, res)
+
+
+def r233(repo, res):
+    f = repo.fn("variational", "ExpectationPropagation.rescale")
+    d = Defs(f)
+    re_calls = [c for c in own_nodes(f) if isinstance(c, ast.Call) and U(c.func).split(".")[-1] == "reallocate_unphased"]
+    k_calls = [c for c in own_nodes(f) if isinstance(c, ast.Call) and U(c.func).split(".")[-1] in ("mutational_timescale", "mutational_area")]
+    if not re_calls or not k_calls:
+        raise AnalysisError("R23.3: reallocate_unphased / mutational_timescale calls not found in ExpectationPropagation.rescale")
+    kern = repo.fn("rescaling", U(k_calls[0].func).split(".")[-1])
+    kparams = [a.arg for a in kern.args.args]
+    # the likelihood/count parameter of the kernel: the 2-D float table (second positional today); locate by name
+    pos = next((i for i, a in enumerate(kparams) if "likelihood" in a or "mutations" in a or "counts" in a), 1)
+    for rc in re_calls:
+        a = d.origins(rc.args[0]) if rc.args else set()
+        for kc in k_calls:
+            b = d.origins(kc.args[pos]) if len(kc.args) > pos else set()
+            res.require(bool(a) and a == b, "R23.3", "variational.ExpectationPropagation.rescale reallocates the table that the rescaling kernel reads", f"reallocate_unphased corrects `{U(rc.args[0]) if rc.args else None}` (origins {sorted(a)}) but {U(kc.func)} reads `{U(kc.args[pos]) if len(kc.args) > pos else None}` (origins {sorted(b)}): for one setting of rescale_segsites the kernel sees every singleton credited wholly to its arbitrary input branch", repo.loc(f, rc), f"{sorted(a)}")
 
 
 def r231(repo, res):
@@ -141,6 +161,7 @@ def r232(repo, res):
 
 _FLIP = "        # report phase relative to the edge on which each singleton was placed\n        switched = self.mutation_phase < 0.5\n        self.mutation_phase[switched] = 1 - self.mutation_phase[switched]\n        logger.info(f\"Switched phase of {np.sum(switched)} singletons\")\n"
 VARIANTS = [
+    dict(name="reallocate-other-table", mod="variational", expect="fire", rule="R23.3", old="        reallocate_unphased(  # correct mutation counts for unphased singletons\n            likelihoods,", new="        reallocate_unphased(  # correct mutation counts for unphased singletons\n            self.sizebiased_likelihoods,"),
     dict(name="flip-before-rescale", mod="variational", expect="fire", rule="R23.2",
          edits=[("variational", _FLIP, ""), ("variational", "        if rescale_intervals > 0 and rescale_iterations > 0:\n            rescale_timing = time.time()", _FLIP + "        if rescale_intervals > 0 and rescale_iterations > 0:\n            rescale_timing = time.time()")]),
     dict(name="flip-before-placement", mod="variational", expect="fire", rule="R23.2",
